@@ -99,7 +99,10 @@ Definition pins_C09 : list (str * str) := [
   (bs "in_toto/verifylib.go:InTotoVerify", bs "4d3f414f862ea70e");
   (bs "in_toto/verifylib.go:InTotoVerifyWithDirectory", bs "c38d943441f285e0");
   (bs "in_toto/verifylib.go:RunInspections", bs "aa3afdd6e6a73ccc");
-  (bs "in_toto/runlib.go:InTotoRun", bs "ff683c08103d4ac5")
+  (bs "in_toto/runlib.go:InTotoRun", bs "ff683c08103d4ac5");
+  (bs "in_toto/verifylib.go:VerifyArtifacts", bs "9921200034787a29");
+  (bs "in_toto/verifylib.go:verifyMatchRule", bs "851728b427bfa95a");
+  (bs "in_toto/util.go:Set.Filter", bs "4b77e78520de3987")
 ].
 
 Definition pins_C10 : list (str * str) := [
@@ -117,6 +120,8 @@ Definition pins_C10 : list (str * str) := [
 
 Definition pins_C11 : list (str * str) := [
   (bs "in_toto/model.go:Metablock.GetSignableRepresentation", bs "c17d1186646d87cd");
+  (bs "in_toto/model.go:Metablock.Sign", bs "7b65e9949ccb3e63");
+  (bs "in_toto/envelope.go:Envelope.Sign", bs "1d54ea3e9248e972");
   (bs "in_toto/envelope.go:Envelope.SetPayload", bs "0f379d1837c47dc1");
   (bs "in_toto/envelope.go:encodeJSONSortedKeys", bs "bcc4202c88966cd7");
   (bs "in_toto/envelope.go:loadEnvelope", bs "434c44572cd344b9");
